@@ -203,7 +203,17 @@ class Element(UnicodeMixin):
         @see: __setitem__()
 
         """
-        attr = self.getAttribute(name)
+        prefix, localname = splitPrefix(name)
+        if prefix is None:
+            # An unprefixed name designates the attribute in no namespace,
+            # never a prefixed one with the same local name (e.g. xsi:type).
+            attr = None
+            for a in self.attributes:
+                if a.prefix is None and a.name == localname:
+                    attr = a
+                    break
+        else:
+            attr = self.getAttribute(name)
         if attr is None:
             attr = Attribute(name, value)
             self.append(attr)
